@@ -131,19 +131,20 @@ Proof. exact main_realizable_complete_partial. Qed.
 Print Assumptions C20_realizable_complete_partial.
 
 
-(** Call histories on ONE object ([last_flow], [built_after], [fresh] are defined in proof/C20_Hist.v: the flow
-    loaded after a list of calls, whether a net is built after it, the state of a fresh object loaded with
-    a flow and built or not).  After ANY sequence of is_realizable / is_scaled_realizable / certificate /
-    build_petri_net_from_flow / load_hypergraph_and_flow calls the object holds the flow loaded last, its
-    net and markings are exactly those built from that flow (or absent right after a reload), and a stored
-    certificate is a correct firing sequence of that flow — never of a scaled or an earlier one. *)
+(** Call histories on ONE object ([last_flow], [built_after], [cert_plain], [fresh] are defined in proof/C20_Hist.v: the flow
+    loaded after a list of calls, whether a net is built after it, whether the certificate field stems from a plain search
+    — i.e. no is_borrow_realizable since the field was last written or cleared —, the state of a fresh object loaded
+    with a flow and built or not).  After ANY sequence of is_realizable / is_scaled_realizable / is_borrow_realizable /
+    certificate / build_petri_net_from_flow / load_hypergraph_and_flow calls the object holds the flow loaded last, its
+    net and markings are exactly those built from that flow (or absent right after a reload) — never a scaled flow's, never
+    borrowed tokens —, and a stored certificate of a plain search is a correct firing sequence of that flow. *)
 Theorem C20_history_state :
   forall (V : list N) (E : list edge) (flow : list Z) (ops : list pr_op),
   let st := pr_exec V E (pr_loaded flow) ops in
   let fl := last_flow flow ops in
   pr_flow st = fl /\
   pr_built st = (if built_after false ops then Some (build_petri_net_from_flow V E fl) else None) /\
-  (forall sq, pr_cert st = Some sq ->
+  (forall sq, cert_plain true ops = true -> pr_cert st = Some sq ->
      realizes E fl sq /\
      ((forall e, In e E -> NoDup (map fst (fst e))) -> Forall nonneg (markings_along E zero sq))).
 Proof. exact main_history_state. Qed.
